@@ -40,6 +40,7 @@ LIB: dict[str, dict] = {
     "TOpToOther": _op("oth", [], outT="TOther"),
     "TMerge": _op("merge", [], inT="TColl", beh=["merge", "merge"]),
     "TFail": _op("fail", [], beh=["fail", "VerifProcError"]),
+    "TWriteThenFail": _op("wtf", [], declared=["w"], beh=["fail", "VerifProcError"]),     # the run fails at this node; its write is visible only in the trace
     # static description only (C09/C17): the data-dependent failure of TFailIf is not part of the execution model
     "TFailIf": _op("failif", [("bad", "fine")]),
     "TFailKI": _op("failki", [], beh=["fail", "KeyboardInterrupt"]),
@@ -165,7 +166,7 @@ def gen_pipeline(rnd, max_len=6, p_misfit=0.15, sinks_path: str | None = None, a
             if fit and rnd.random() < 0.25:
                 cands += ["TOpUndeclared", "TFail", "TFailProbe"]
         if (eff == "TColl") == fit:
-            cands += ["TMerge"] + ["slice:" + p for p in SLICEABLE_OPS[:6] + SLICEABLE_PROBES]
+            cands += ["TMerge"] + ["slice:" + p for p in SLICEABLE_OPS + SLICEABLE_PROBES]
         ctxprocs = ["rename", "delete", "template"]
         if rnd.random() < 0.35 or not cands:
             kind = rnd.choice(ctxprocs)
@@ -278,7 +279,7 @@ def ctx_view(c) -> list:
     return sorted([[k, enc(v)] for k, v in c.to_dict().items()])
 
 
-def run_real(nodes, ctx0, trace=None, data=None, run_metadata=None):
+def run_real(nodes, ctx0, trace=None, data=None, run_metadata=None, transport=None):
     """Pipeline(nodes).process(Payload(NoDataType, ctx0)) with a node-start counter.
 
     Returns dict(outcome='ok'|'constructError'|'runError', started=<nodes started>, data, ctx, exc, cls)."""
@@ -301,8 +302,9 @@ def run_real(nodes, ctx0, trace=None, data=None, run_metadata=None):
     res = {"outcome": None, "started": 0, "data": None, "ctx": None, "exc": None, "cls": None, "pipeline": None}
     try:
         import copy
-        pipe = Pipeline(copy.deepcopy(nodes), orchestrator=orch, trace=trace) if trace is not None else \
-            Pipeline(copy.deepcopy(nodes), orchestrator=orch)
+        kw = {} if transport is None else {"transport": transport}
+        pipe = Pipeline(copy.deepcopy(nodes), orchestrator=orch, trace=trace, **kw) if trace is not None else \
+            Pipeline(copy.deepcopy(nodes), orchestrator=orch, **kw)
         res["pipeline"] = pipe
         if run_metadata is not None:
             pipe.set_run_metadata(run_metadata)
